@@ -782,6 +782,36 @@ def extract_fn(unit: str, file: str, item: str, mode: str, contracts, canary: bo
                 edits.append((toks[end].start, toks[end].start, ')', rw('R32')))
                 info.rewrites.append('R32:%s -> .%s()' % (op_, meth))
 
+    # rule R32b (automatic): `X |= E;` on a plain local -- `bool |= bool`, which Verus does not support -- becomes
+    # `{ let vp_or: bool = E; if vp_or { X = true; } }` (E is evaluated exactly once, as before).  Not applied where the sidecar
+    # maps `|=` to a method (R32), and -- like R25-R27 -- only in functions whose text differs from the baseline.  If X is not a bool
+    # the rewritten text does not type-check and the unit is undecided, as before.
+    _changed_fn = _baseline_sha().get(fn_label) not in (None, info.sha256)
+    if _changed_fn and not (c and any(op_ == '|=' for (op_, _m) in c.opassigns)):
+        def _stmt_end3(k0):
+            d_ = 0
+            for k_ in range(k0, bhi):
+                tx_ = toks[k_].text
+                if toks[k_].kind == 'punct':
+                    if tx_ in ('(', '[', '{'):
+                        d_ += 1
+                    elif tx_ in (')', ']', '}'):
+                        d_ -= 1
+                        if d_ < 0:
+                            return None
+                    elif tx_ == ';' and d_ == 0:
+                        return k_
+            return None
+        for k in range(blo + 1, bhi):
+            if toks[k].kind == 'punct' and toks[k].text == '|=' and toks[k - 1].kind == 'ident' and toks[k - 2].text in (';', '{', '}'):
+                end = _stmt_end3(k)
+                if end is None:
+                    continue
+                xname = toks[k - 1].text
+                edits.append((toks[k - 1].start, toks[k].end, '{ let vp_or: bool =', rw('R32b')))
+                edits.append((toks[end].start, toks[end].end, '; if vp_or { %s = true; } }' % xname, rw('R32b')))
+                info.rewrites.append('R32b:%s |= .. -> if' % xname)
+
     # rule R29: a `let mut X = E;` that a closure captures mutably (a hard error in Verus) becomes `let X = VpCell::vp_new(E);`
     # (std::cell::Cell semantics: the closure then captures `&X`).  Reads become `X.vp_get()`, assignments `X.vp_set(E)`;
     # `X.replace(v)` resolves to the cell's own `replace` (same meaning as BoolExt::replace).  The cell's contract says NOTHING about
